@@ -111,6 +111,8 @@ pub(crate) trait Selector<I: Interest, E: Event, S: EventIterator<E>> {
         } else {
             self.register(fd, token, I::read(token))
         }?;
+        #[cfg(open_coroutine_verif)]
+        crate::common::verif::pause("selector_between_register_and_record");
         _ = READABLE_RECORDS.insert(key);
         _ = READABLE_TOKEN_RECORDS.insert(key, token);
         Ok(())
@@ -141,6 +143,8 @@ pub(crate) trait Selector<I: Interest, E: Event, S: EventIterator<E>> {
         } else {
             self.register(fd, token, I::write(token))
         }?;
+        #[cfg(open_coroutine_verif)]
+        crate::common::verif::pause("selector_between_register_and_record");
         _ = WRITABLE_RECORDS.insert(key);
         _ = WRITABLE_TOKEN_RECORDS.insert(key, token);
         Ok(())
@@ -174,6 +178,8 @@ pub(crate) trait Selector<I: Interest, E: Event, S: EventIterator<E>> {
                 //写事件不能删
                 let token = WRITABLE_TOKEN_RECORDS.get(&key).map_or(0, |r| *r.value());
                 self.reregister(fd, token, I::write(token))?;
+                #[cfg(open_coroutine_verif)]
+                crate::common::verif::pause("selector_between_reregister_and_record");
                 assert!(
                     READABLE_RECORDS.remove(&key).is_some(),
                     "Clean READABLE_RECORDS failed !"
@@ -198,6 +204,8 @@ pub(crate) trait Selector<I: Interest, E: Event, S: EventIterator<E>> {
                 //读事件不能删
                 let token = READABLE_TOKEN_RECORDS.get(&key).map_or(0, |r| *r.value());
                 self.reregister(fd, token, I::read(token))?;
+                #[cfg(open_coroutine_verif)]
+                crate::common::verif::pause("selector_between_reregister_and_record");
                 assert!(
                     WRITABLE_RECORDS.remove(&key).is_some(),
                     "Clean WRITABLE_RECORDS failed !"
